@@ -553,7 +553,7 @@ func c08Table(r *rand.Rand, tier string) []c08Scenario {
 	return out
 }
 
-func c08Scenarios(tier string) []c08Scenario {
+func c08Scenarios(tier string, r *rand.Rand) []c08Scenario {
 	n := "issue_cert_example.com"
 	long := time.Duration(25) * time.Second
 	scs := []c08Scenario{
@@ -605,6 +605,32 @@ func c08Scenarios(tier string) []c08Scenario {
 			Horizon: c08ms(16000)})
 	}
 	if tier == "thorough" {
+		// holder killed at a random moment (kept away from its heartbeat instants); the waiter's
+		// poll phase is chosen so that the staleness instant falls between two polls
+		for i := 0; i < 6; i++ {
+			create := 200
+			var kill int
+			for {
+				kill = 400 + r.Intn(13000)
+				ok := true
+				for hb := create + 5000; hb < 20000; hb += 5000 {
+					if kill > hb-200 && kill < hb+300 {
+						ok = false
+					}
+				}
+				if ok {
+					break
+				}
+			}
+			lastUpd := create + ((kill-create)/5000)*5000
+			staleAt := lastUpd + 10000
+			wstart := 300 + (staleAt+500-300)%1000 // polls at staleAt + 500 (mod 1000)
+			pid := 1
+			scs = append(scs, c08Scenario{Name: fmt.Sprintf("kill-holder-at-%dms", kill), Class: "kill-holder",
+				Threads: []c08Thread{{Tid: 0, Pid: pid, Name: n, StartAt: c08ms(create), HoldFor: -1},
+					{Tid: 1, Pid: 2 * (i % 2), Name: n, StartAt: c08ms(wstart), HoldFor: c08ms(200), CancelAt: 40 * time.Second}},
+				Kills: []c08Kill{{pid, c08ms(kill)}}, Horizon: c08ms(staleAt + 4000)})
+		}
 		scs = append(scs,
 			c08Scenario{Name: "hold-40s", Class: "long-hold",
 				Threads: []c08Thread{{Tid: 0, Pid: 1, Name: n, StartAt: c08ms(150), HoldFor: c08ms(40250)}, {Tid: 1, Name: n, StartAt: c08ms(500), HoldFor: c08ms(200), CancelAt: 60 * time.Second},
@@ -640,7 +666,7 @@ func runC08(tier string, seed int64, outdir string, replay string) error {
 	}
 	defer os.RemoveAll(tmproot)
 
-	scs := append(c08Scenarios(tier), c08Table(r, tier)...)
+	scs := append(c08Scenarios(tier, r), c08Table(r, tier)...)
 	if replay != "" {
 		rc, err := loadReplay(replay)
 		if err != nil {
